@@ -33,6 +33,13 @@ def check_c13(ctx):
     cfgs = boxes.twolevel(nmax, pmax, bmax, passes=2)
     cfgs += [mkcfg("TwoLevel", N=300, passes=2, period=60, ram=2, st=0), mkcfg("TwoLevel", N=263, passes=1, period=7, ram=1, st=1),
              mkcfg("TwoLevel", N=131, passes=2, period=33, ram=3, st=0, traj=1)]
+    # every period up to 128 with one full block and a one-step block (and, up to 64, two full blocks):
+    # block arithmetic done in floats goes wrong only for particular periods (seed R8-C13-a: n * (1/period)
+    # is 0.9999999999999999 for period 49)
+    for p in range(9, 129 if q else 257):
+        cfgs.append(mkcfg("TwoLevel", N=p + 1, passes=1, period=p, ram=2, st=0))
+        if p <= (64 if q else 128):
+            cfgs.append(mkcfg("TwoLevel", N=2 * p + 1, passes=1, period=p, ram=1, st=1, traj=1))
     # TLC-guided selection (see optim.planner_scan): blocks whose first advance fails the Bellman
     # equation of the binomial recurrence are added as one-block configurations
     from . import optim
